@@ -165,6 +165,8 @@ def run(tier):
     # 2./3. scenarios on the real node
     n_scen, max_points, par = (5, 7, 4) if tier == "quick" else (24, 1000, 4)
     seeds = [V.seed() * 1000 + i for i in range(n_scen)]
+    # one LONG scenario (see make_plan in c10.rs): about 180 blocks frozen below a tip near 300
+    seeds.append(V.seed() * 1000 + 777)
     V.build_harness("c10")
     with ThreadPoolExecutor(max_workers=par) as ex:
         results = list(ex.map(lambda s: (s, run_scenario(s, max_points)), seeds))
